@@ -151,9 +151,9 @@ def run_scenario(kind, scenario):
             return ("url", client.create_authorization_url(scenario["authz_url"], state=scenario.get("state"),
                                                            code_verifier=scenario.get("code_verifier"), **scenario.get("extra", {})))
         if op == "fetch_token":
-            return ("call", lambda: client.fetch_token(TOKEN_URL, **scenario["kwargs"]))
+            return ("call", lambda: client.fetch_token(scenario.get("token_url", TOKEN_URL), method=scenario.get("http_method", "POST"), **scenario["kwargs"]))
         if op == "refresh":
-            return ("call", lambda: client.refresh_token(TOKEN_URL, refresh_token=scenario["refresh_token"], **scenario.get("kwargs", {})))
+            return ("call", lambda: client.refresh_token(scenario.get("token_url", TOKEN_URL), refresh_token=scenario["refresh_token"], **scenario.get("kwargs", {})))
         if op == "protected":
             if scenario["placement"] == "body":
                 return ("call", lambda: client.post(scenario["resource"], data=scenario.get("data") or {}))
@@ -246,7 +246,11 @@ def run_clients(ctx):
             if scope_val is not None and grant != "authorization_code":
                 kwargs["scope"] = scope_val
             sc["kwargs"] = kwargs
+            # a token endpoint that has a query of its own, and the GET form of the token request (fetch_token(method="GET"))
+            sc["token_url"] = rng.choice([TOKEN_URL, TOKEN_URL, TOKEN_URL + "?tenant=t%201&api-version=2", TOKEN_URL + "?k=&v=1"])
+            sc["http_method"] = rng.choice(["POST", "POST", "GET"])
         elif op == "refresh":
+            sc["token_url"] = rng.choice([TOKEN_URL, TOKEN_URL, TOKEN_URL + "?tenant=t%201&api-version=2"])
             sc["refresh_token"] = rng.choice(TEXT_POOL[:15]) or "rt"
             if scope_val is not None:
                 sc["kwargs"] = {"scope": scope_val}
@@ -314,10 +318,18 @@ def run_clients(ctx):
                 want["scope"] = scope_expected
             if op == "fetch_token" and want["grant_type"] == "authorization_code" and sc.get("redirect_uri"):
                 want["redirect_uri"] = sc["redirect_uri"]
-            got = {k: rd["form"].get(k) for k in want}
+            by_get = req["method"] == "GET"
+            got = {k: (rd["data"] if by_get else rd["form"]).get(k) for k in want}
+            old_q = up.parse_qsl(up.urlsplit(sc.get("token_url", TOKEN_URL)).query, keep_blank_values=True)
+            now_q = up.parse_qsl(up.urlsplit(req["url"]).query, keep_blank_values=True)
+            if now_q[:len(old_q)] != old_q or (not by_get and now_q != old_q) or req["method"] != sc.get("http_method", "POST"):
+                ctx.violation("C15:%s:endpoint-query-not-kept" % op, "the token endpoint's own query parameters do not reach the server unchanged "
+                              "(or the request went out with another method)", dict(case, request=req))
             if "scope" in want and isinstance(scope_val, set):
                 got["scope"], want["scope"] = sorted(scope_to_list(got["scope"] or "")), sorted(scope_val)
             expect_client = [cid, auth_method]
+            if by_get and auth_method == "client_secret_post":
+                expect_client = rd["client"]      # a secret in the URI is not a client_secret_post credential (C07): not compared here
             if got != want or rd["client"] != expect_client:
                 ctx.violation("C15:%s:read-back-differs:%s" % (op, auth_method), "token request parameters or client credentials are not recovered unchanged",
                               dict(case, want=want, got=got, client=rd["client"], request=req))
